@@ -403,19 +403,37 @@ def parFilter {α : Type} (p : α → Bool) (chunks : List (List α)) : List α 
 structure Adj where
   segs : List (List Edge) := []     -- frozen CSR segments, oldest first
   buffer : List Edge := []          -- write buffer
-  dead : List Nat := []             -- ids of frozen relationships deleted since they were frozen
 deriving Repr
 
 /-- what `for_each_outgoing_neighbor` walks: every frozen segment, then the buffer -/
-def Adj.abs (a : Adj) : List Edge :=
-  (a.segs.flatten.filter (fun e => !a.dead.contains e.id)) ++ a.buffer
+def Adj.abs (a : Adj) : List Edge := a.segs.flatten ++ a.buffer
 
 /-- `compact_adjacency`: the buffer becomes a new frozen segment (no-op on an empty buffer) -/
 def Adj.compact (a : Adj) : Adj :=
-  if a.buffer.isEmpty then a else { a with segs := a.segs ++ [a.buffer], buffer := [] }
+  if a.buffer.isEmpty then a else { segs := a.segs ++ [a.buffer], buffer := [] }
+
+/-- writes to the adjacency; ids are arbitrary, so a freed id may be used again -/
+inductive AOp where
+  | create (e : Edge)        -- `create_edge`: appended to the write buffer
+  | delete (id : Nat)        -- `delete_edge`: `retain` on the buffer **and** `remove_edge` on every frozen segment
+  | compact
+deriving Repr
+
+def Adj.step (a : Adj) : AOp → Adj
+  | .create e => { a with buffer := a.buffer ++ [e] }
+  | .delete id =>
+    { segs := a.segs.map (fun seg => seg.filter (fun e => e.id != id)),
+      buffer := a.buffer.filter (fun e => e.id != id) }
+  | .compact => a.compact
+
+/-- the tier-free meaning of the same writes: one list of relationships -/
+def flatStep (es : List Edge) : AOp → List Edge
+  | .create e => es ++ [e]
+  | .delete id => es.filter (fun e => e.id != id)
+  | .compact => es
 
 def Adj.neighbors (a : Adj) (src ty : Nat) : List Nat :=
-  (a.abs.filter (fun e => e.src == src && e.ty == ty)).map (·.dst)
+  (a.abs.filter (fun e => e.src == src && (ty == 0 || e.ty == ty))).map (·.dst)
 
 /-! ### rows of the modelled query shapes -/
 
@@ -428,7 +446,8 @@ structure Query where
   label : Nat
   preds : List Pred
   ret : Ret
-  /-- `some (ty, out, tl)`: `MATCH (n:label)-[:ty]->(m:tl)` (out) / `<-[:ty]-` and RETURN n.h, m.h -/
+  /-- `some (ty, out, tl)`: `MATCH (n:label)-[:ty]->(m:tl)` (out) / `<-[:ty]-` and RETURN n.h, m.h;
+  `ty = 0` is an untyped relationship pattern, `tl = 0` an unlabelled target -/
   hop : Option (Nat × Bool × Nat) := none
 deriving Repr
 
@@ -443,12 +462,12 @@ def rowsOf (s : St) (q : Query) (ids : List Nat) : List (List Val) :=
     | .count => [[.int ids.length]]
   | some (ty, out, tl) =>
     ids.flatMap (fun id =>
-      (s.edges.filter (fun e => e.ty == ty && (if out then e.src == id else e.dst == id))).filterMap
+      (s.edges.filter (fun e => (ty == 0 || e.ty == ty) && (if out then e.src == id else e.dst == id))).filterMap
         (fun e =>
           let other := if out then e.dst else e.src
           match nodeAt s id, nodeAt s other with
           | some n, some m =>
-            if m.labels.contains tl then some [propOf n hKey, propOf m hKey] else none
+            if tl == 0 || m.labels.contains tl then some [propOf n hKey, propOf m hKey] else none
           | _, _ => none))
 
 def specRows (s : St) (q : Query) : List (List Val) := rowsOf s q (specIds s q.label q.preds)
